@@ -88,6 +88,16 @@ def generate(streams: core.Streams, tier: str) -> dict:
             docs[f"d{i}"] = _variant(w, base, f"R{i}")
         else:
             docs[f"d{i}"] = gen.gen_rule(w, f"R{i}", names_pool=names_pool, tricky=0.08)
+    # optional filter and correlation rule: they take part in collections of the history and of probes
+    extra_docs: dict[str, dict] = {}
+    if gen.chance(w, 0.3):
+        base = docs[gen.pick(w, sorted(docs))]
+        extra_docs["f0"] = gen.gen_filter(w, "F0", "any", copy.deepcopy(base["logsource"]))
+    if gen.chance(w, 0.25):
+        tgt = gen.pick(w, sorted(docs))
+        docs[tgt]["name"] = "ref_" + tgt
+        extra_docs["c0"] = gen.gen_correlation(w, "C0", ["ref_" + tgt], name="corr0", generate=gen.chance(w, 0.5))
+        extra_docs["c0"]["_needs"] = tgt
     n_pipes = w.randint(1, 3)
     pipelines: dict[str, dict] = {}
     for i in range(n_pipes):
@@ -140,10 +150,15 @@ def generate(streams: core.Streams, tier: str) -> dict:
         elif r < 0.48:
             b = gen.pick(s, backends)
             sel = s.sample(dids, s.randint(1, min(4, len(dids))))
+            if "f0" in extra_docs and gen.chance(s, 0.5):
+                sel = ["f0"] + sel
+            if "c0" in extra_docs and gen.chance(s, 0.5):
+                need = extra_docs["c0"]["_needs"]
+                sel = [x for x in sel if x != need] + [need, "c0"]
             fmt = gen.pick(s, FORMATS)
             b["last_format"] = fmt
             ops.append({"op": "ConvertCollection", "backend": b["id"], "docs": sel, "format": fmt,
-                        "faults": _faults(f, [docs[d]["title"] for d in sel])})
+                        "faults": _faults(f, [docs[d]["title"] for d in sel if d in docs])})
         elif r < 0.66:
             b = gen.pick(s, backends)
             d = gen.pick(s, dids)
@@ -178,7 +193,13 @@ def generate(streams: core.Streams, tier: str) -> dict:
         else:
             fmt = gen.pick(s, FORMATS)
             b["last_format"] = fmt
-        ops.append({"op": "Probe", "backend": b["id"], "doc": gen.pick(s, dids), "via": via, "format": fmt})
+        probe = {"op": "Probe", "backend": b["id"], "doc": gen.pick(s, dids), "via": via, "format": fmt}
+        if via == "convert" and "f0" in extra_docs and gen.chance(s, 0.4):
+            probe["with"] = ["f0"]  # the probe rule is loaded together with the filter
+        ops.append(probe)
+    for d in extra_docs.values():
+        d.pop("_needs", None)
+    docs.update(extra_docs)
     return {
         "knobs": {"parse_cache": gen.pick(f, [None, None, 1, 2, 256])},
         "class_pipelines": class_pipelines,
@@ -291,9 +312,13 @@ def _fresh_probe(args: tuple[dict, int]) -> dict:
         op = scenario["ops"][opi]
         bop = next(o for o in scenario["ops"] if o["op"] == "NewBackend" and o["id"] == op["backend"])
         backend = world.new_backend(bop, fresh=True)
-        return world.convert(backend, [scenario["documents"][op["doc"]]], op["via"], op["format"])
+        return world.convert(backend, _probe_docs(scenario, op), op["via"], op["format"])
     finally:
         world.close()
+
+
+def _probe_docs(scenario: dict, op: dict) -> list[dict]:
+    return [scenario["documents"][d] for d in op.get("with", [])] + [scenario["documents"][op["doc"]]]
 
 
 def execute(scenario: dict) -> dict:
@@ -435,7 +460,7 @@ def _execute(scenario: dict) -> dict:
                         or (m.get("shared") and m.get("pipeline") in touched_pipes)
                         or _shares(scenario, op["doc"], touched_docs)):
                     nontrivial = True
-                got = world.convert(b, [scenario["documents"][op["doc"]]], op["via"], op["format"])
+                got = world.convert(b, _probe_docs(scenario, op), op["via"], op["format"])
                 own_errors.setdefault(op["backend"], []).extend(got.get("errors", []))
                 want = fresh[i]
                 oc = _outcome_class(got)
@@ -474,6 +499,8 @@ def _shares(scenario: dict, did: str, touched: set[str]) -> bool:
     d = scenario["documents"][did]["detection"]
     conds = d["condition"] if isinstance(d["condition"], list) else [d["condition"]]
     for t in touched:
+        if "detection" not in scenario["documents"][t]:
+            continue
         o = scenario["documents"][t]["detection"]
         oc = o["condition"] if isinstance(o["condition"], list) else [o["condition"]]
         if set(conds) & set(oc):
@@ -563,6 +590,8 @@ def shrink(sc: dict) -> Iterable[dict]:
         used_docs.update(o.get("docs", []))
         if "doc" in o:
             used_docs.add(o["doc"])
+    for o in ops:
+        used_docs.update(o.get("with", []))
     for d in sorted(sc["documents"]):
         if d not in used_docs:
             c = copy.deepcopy(sc)
@@ -596,6 +625,8 @@ def shrink(sc: dict) -> Iterable[dict]:
     # documents: drop detections / items / meta
     for d in sorted(sc["documents"]):
         doc = sc["documents"][d]
+        if "detection" not in doc:
+            continue
         for k in ("status", "level", "tags", "date", "description", "custom_x", "fields"):
             if k in doc:
                 c = copy.deepcopy(sc)
